@@ -116,7 +116,7 @@ def syllables_of(schema, x):
 
 def run(ctx):
     quick = ctx.tier == "quick"
-    n_hist, steps = (45, 9) if quick else (240, 14)
+    n_hist, steps = (45, 9) if quick else (600, 14)
     ctx.coverage["trusted_base"] = [
         "Coq 8.16.1 kernel (+ vm_compute for the concrete examples); no native_compute",
         "the model files coq/UdbL/Txn.v, Learn.v, Rank.v as a faithful port of user_dictionary.cc (UpdateEntry, CreateDictEntry), memory.cc, "
